@@ -256,8 +256,30 @@ fn decomp_case(ctx: &mut Ctx, rng: &mut Rng) {
         Err(p) => { ctx.violation("C12/i64/decomp/panic", &format!("dir_sum_decomp panicked ({} threads): {}", nthreads, p.brief()), wit(json!(null))); return }
     };
     let mut bad: Option<(&str, String)> = None;
+    // "the same value on one thread and on many": the decomposition is not unique mathematically, so the
+    // value returned on a one-thread pool (no schedule perturbation) is the reference, compared exactly
+    if nthreads > 1 {
+        let a3 = a.clone();
+        let one = guarded(move || pools()[&1].install(move || {
+            let (p, q, s) = dir_sum_decomp(a3);
+            let pv: Vec<usize> = (0..p.view().dim()).map(|i| p.view().at(i)).collect();
+            let qv: Vec<usize> = (0..q.view().dim()).map(|j| q.view().at(j)).collect();
+            (pv, qv, s)
+        }));
+        match one {
+            Ok((p1, q1, s1)) => {
+                ctx.count("decomp_one_vs_many_compared", 1);
+                if p1 != pv || q1 != qv || s1 != s {
+                    let what = if s1.len() != s.len() { "number of blocks" } else if s1 != s { "blocks (or their order)" } else { "permutations" };
+                    bad = Some(("one-thread-vs-many", format!("dir_sum_decomp returned a different value on {nthreads} threads than on one thread: {what} differ")));
+                }
+            }
+            Err(p) => { ctx.violation("C12/i64/decomp/panic", &format!("dir_sum_decomp panicked (1 thread): {}", p.brief()), wit(json!(null))); return }
+        }
+    }
     let is_perm = |v: &Vec<usize>, k: usize| v.len() == k && v.iter().cloned().collect::<HashSet<_>>().len() == k && v.iter().all(|&x| x < k);
-    if !is_perm(&pv, m) || !is_perm(&qv, n) { bad = Some(("perm", "returned permutations are not permutations".into())) }
+    if bad.is_some() {}
+    else if !is_perm(&pv, m) || !is_perm(&qv, n) { bad = Some(("perm", "returned permutations are not permutations".into())) }
     else {
         // permuted matrix by definition
         let mut perm = OMat::<Z>::zero(m, n);
